@@ -214,6 +214,8 @@ def _smoothing_call(ck: Checker, f, scope: List[ast.stmt], raw_name: str, dt_exp
                     continue
                 if v.has(sp.Symbol("SMOOTHING_OPERATORS", real=True)) or "SMOOTHING_OPERATORS" in str(v):
                     calls.append((c, v))
+    if not calls:
+        raise AnalysisError(f"{q}: {what}: no call of a SMOOTHING_OPERATORS entry is visible (the operator may be called through an object that is not analysed)")
     if len(calls) != 1:
         ck.violation(P + "R3", q, f"{what}: smoothing call", f"expected one call of a SMOOTHING_OPERATORS entry, found {len(calls)}", loc=f.loc())
         return None
